@@ -265,6 +265,7 @@ func C16(c *core.Ctx) {
 		})
 		_ = firstAttr
 	}
+	flowDescOwned(c, "R4")
 	if fn := fnOf(c, "R4", pkgFwd, "Gtp5g", "newSdfFilter"); fn != nil {
 		access := p.Const(core.PkgIE, "SrcInterfaceAccess")
 		for _, ci := range core.Calls(fn, p.Method(pkgFwd, "Gtp5g", "newFlowDesc")) {
@@ -453,4 +454,73 @@ func fromParsedNumber(v ssa.Value, d int) bool {
 		}
 	}
 	return false
+}
+
+// flowDescOwned: the uplink swap exchanges the fields of the parsed rule IN PLACE, so that object must
+// belong to this translation alone: it is the direct result of a parser call that returns a freshly
+// allocated rule on every success path (a cached or otherwise shared object would hand later PDRs with
+// the same filter text the already-swapped sides).
+func flowDescOwned(c *core.Ctx, rule string) {
+	p := c.P
+	fn := fnOf(c, rule, pkgFwd, "Gtp5g", "newFlowDesc")
+	if fn == nil {
+		return
+	}
+	var fresh func(f *ssa.Function, d int) (bool, string)
+	fresh = func(f *ssa.Function, d int) (bool, string) {
+		if f == nil || f.Blocks == nil || d > 3 {
+			return false, "callee without analysable body"
+		}
+		ok, why := true, ""
+		core.Instrs(f, func(in ssa.Instruction) {
+			r, isR := in.(*ssa.Return)
+			if !isR || len(r.Results) == 0 || core.IsNilConst(r.Results[0]) {
+				return
+			}
+			switch x := core.Unwrap(r.Results[0]).(type) {
+			case *ssa.Alloc:
+				if x.Parent() != f {
+					ok, why = false, "returns an object allocated elsewhere"
+				}
+			case *ssa.Extract:
+				cl, isC := x.Tuple.(*ssa.Call)
+				if !isC || x.Index != 0 || !p.IsOwnFn(core.StaticFn(cl)) {
+					ok, why = false, core.FnName(f)+" returns a value it did not allocate"
+					return
+				}
+				if o, w := fresh(core.StaticFn(cl), d+1); !o {
+					ok, why = false, w
+				}
+			default:
+				ok, why = false, fmt.Sprintf("%s returns a value it did not allocate (%T)", core.FnName(f), x)
+			}
+		})
+		return ok, why
+	}
+	n := 0
+	seen := map[ssa.Value]bool{}
+	core.Instrs(fn, func(in ssa.Instruction) {
+		st, ok := in.(*ssa.Store)
+		if !ok {
+			return
+		}
+		fa, ok := st.Addr.(*ssa.FieldAddr)
+		if !ok || core.FieldOfAddr(fa).Pkg() == nil || core.FieldOfAddr(fa).Pkg().Path() != pkgFwd {
+			return
+		}
+		base := core.Unwrap(fa.X)
+		if seen[base] {
+			return
+		}
+		seen[base] = true
+		n++
+		good, why := false, "the object written is not the result of a parser call"
+		if ex, isE := base.(*ssa.Extract); isE && ex.Index == 0 {
+			if cl, isC := ex.Tuple.(*ssa.Call); isC {
+				good, why = fresh(core.StaticFn(cl), 0)
+			}
+		}
+		c.Check(rule, "swap-target-owned", st.Pos(), good, "the rule whose sides are exchanged in place is a fresh object owned by this translation "+why)
+	})
+	c.Floor(rule, n, 1, "objects written by newFlowDesc")
 }
